@@ -901,58 +901,8 @@ func checkC09(P *Prog, r *Result) {
 			P.checkLoopBody(r, fn, l, lname)
 		}
 	}
-	// issue-container reads: the struct field loop reaches every node function; a node that consults the
-	// execution-wide issue container (HasErrored / IsEmpty) makes its behaviour depend on which siblings were
-	// visited before it. The only accepted reader is the deferred post-transform gate (post-transform issues are
-	// outside the statement).
-	for _, nf := range P.nodeFuncs() {
-		var bad []string
-		eachInstr(nf, func(_ *ssa.BasicBlock, _ int, in ssa.Instruction) {
-			ci := callOf(in)
-			if ci == nil {
-				return
-			}
-			name := ""
-			if ci.static != nil {
-				name = ci.static.Name()
-			} else if ci.invoke != nil {
-				name = ci.invoke.Name()
-			}
-			if name == "HasErrored" || name == "IsEmpty" {
-				bad = append(bad, P.ipos(in))
-			}
-		})
-		// closures: allowed only as the guard of the post-transform loop
-		for _, cl := range nf.AnonFuncs {
-			hasPT := false
-			eachInstr(cl, func(_ *ssa.BasicBlock, _ int, in ssa.Instruction) {
-				if P.callbackRole(callOf(in)) == "postTransform" {
-					hasPT = true
-				}
-			})
-			eachInstr(cl, func(_ *ssa.BasicBlock, _ int, in ssa.Instruction) {
-				ci := callOf(in)
-				if ci == nil {
-					return
-				}
-				name := ""
-				if ci.static != nil {
-					name = ci.static.Name()
-				} else if ci.invoke != nil {
-					name = ci.invoke.Name()
-				}
-				if (name == "HasErrored" || name == "IsEmpty") && !hasPT {
-					bad = append(bad, P.ipos(in))
-				}
-			})
-		}
-		if len(bad) > 0 {
-			r.bad("C09/issue-container-reads", fname(nf), bad[0], "the node consults the execution-wide issue container outside the post-transform gate: whether it runs its tests / reports its issues depends on which sibling fields were visited before it ("+strings.Join(bad, ", ")+")")
-		} else {
-			r.ok("C09/issue-container-reads", fname(nf), P.pos(nf.Pos()), "the issue container is read only by the deferred post-transform gate")
-		}
-	}
-	r.floor("C09/issue-container-reads", 20)
+	P.checkIssueContainerReads(r, "C09/issue-container-reads")
+	P.checkReflectMapIteration(r, "C09/reflect-map-iteration")
 	r.Instances["C09/map-range-loops"] = nLoops
 	r.floor("C09/map-range-loops", 7)
 	_ = R
@@ -1256,4 +1206,108 @@ func collectThenSort(l rangeLoop, ph *ssa.Phi) bool {
 		}
 	}
 	return true
+}
+
+// checkIssueContainerReads: see the comment in the body.
+func (P *Prog) checkIssueContainerReads(r *Result, rule string) {
+	// issue-container reads: the struct field loop reaches every node function; a node that consults the
+	// execution-wide issue container (HasErrored / IsEmpty) makes its behaviour depend on which siblings were
+	// visited before it. The only accepted reader is the deferred post-transform gate (post-transform issues are
+	// outside the statement).
+	for _, nf := range P.nodeFuncs() {
+		var bad []string
+		eachInstr(nf, func(_ *ssa.BasicBlock, _ int, in ssa.Instruction) {
+			ci := callOf(in)
+			if ci == nil {
+				return
+			}
+			name := ""
+			if ci.static != nil {
+				name = ci.static.Name()
+			} else if ci.invoke != nil {
+				name = ci.invoke.Name()
+			}
+			if name == "HasErrored" || name == "IsEmpty" {
+				bad = append(bad, P.ipos(in))
+			}
+		})
+		// closures: allowed only as the guard of the post-transform loop
+		for _, cl := range nf.AnonFuncs {
+			hasPT := false
+			eachInstr(cl, func(_ *ssa.BasicBlock, _ int, in ssa.Instruction) {
+				if P.callbackRole(callOf(in)) == "postTransform" {
+					hasPT = true
+				}
+			})
+			eachInstr(cl, func(_ *ssa.BasicBlock, _ int, in ssa.Instruction) {
+				ci := callOf(in)
+				if ci == nil {
+					return
+				}
+				name := ""
+				if ci.static != nil {
+					name = ci.static.Name()
+				} else if ci.invoke != nil {
+					name = ci.invoke.Name()
+				}
+				if (name == "HasErrored" || name == "IsEmpty") && !hasPT {
+					bad = append(bad, P.ipos(in))
+				}
+			})
+		}
+		if len(bad) > 0 {
+			r.bad(rule, fname(nf), bad[0], "the node consults the execution-wide issue container outside the post-transform gate: whether it runs its tests / reports its issues depends on which sibling fields were visited before it ("+strings.Join(bad, ", ")+")")
+		} else {
+			r.ok(rule, fname(nf), P.pos(nf.Pos()), "the issue container is read only by the deferred post-transform gate")
+		}
+	}
+	r.floor(rule, 20)
+}
+
+// checkReflectMapIteration: iterating a map through reflection (MapRange,
+// MapKeys) or x/exp/maps.Keys/Values is map iteration too: its results must be
+// sorted before any order-sensitive use.
+func (P *Prog) checkReflectMapIteration(r *Result, rule string) {
+	g := P.buildModCG()
+	E := P.execSet(g)
+	n := 0
+	for _, fn := range sortedFuncs(E) {
+		eachInstr(fn, func(_ *ssa.BasicBlock, _ int, in ssa.Instruction) {
+			ci := callOf(in)
+			if ci == nil || ci.static == nil {
+				return
+			}
+			name := ci.static.String()
+			isIter := false
+			if isPkgFunc(ci.static, "reflect") && (ci.static.Name() == "MapRange" || ci.static.Name() == "MapKeys") {
+				isIter = true
+			}
+			if on := originName(ci.static); on == "maps.Keys" || on == "maps.Values" || on == "golang.org/x/exp/maps.Keys" || on == "golang.org/x/exp/maps.Values" {
+				isIter = true
+			}
+			if !isIter {
+				return
+			}
+			n++
+			c := fmt.Sprintf("%s#%s@%d", fname(fn), ci.static.Name(), n)
+			// accepted only when the collected result is sorted in the same function
+			sorted := false
+			eachInstr(fn, func(_ *ssa.BasicBlock, _ int, in2 ssa.Instruction) {
+				if c2 := callOf(in2); c2 != nil && c2.static != nil {
+					n2 := c2.static.String()
+					if strings.HasPrefix(n2, "sort.") || strings.HasPrefix(originName(c2.static), "slices.Sort") {
+						sorted = true
+					}
+				}
+			})
+			if sorted {
+				r.ok(rule, c, P.ipos(in), "map iterated through "+name+"; the result is sorted in this function")
+			} else {
+				r.bad(rule, c, P.ipos(in), "execution code iterates a map through "+name+" and uses the elements in iteration order: the result (element order, which index an issue is filed under) changes from run to run")
+			}
+		})
+	}
+	if n == 0 {
+		r.ok(rule, "execution code", "-", "no reflective map iteration in execution-reachable code")
+	}
 }
